@@ -309,75 +309,119 @@ theorem spec_closed_reaches (dep : Nat → Nat → Option (Nat × Nat)) (W : Lis
 
 /-! ### `open()` -/
 
-def OpenSt.flags (s : OpenSt) : Bool × Bool := (s.option, s.version)
+theorem flags_eq_iff (s s' : OpenSt) :
+    s.flags = s'.flags ↔ (s.option = s'.option ∧ s.version = s'.version ∧ s.ver = s'.ver ∧ s.col = s'.col) := by
+  obtain ⟨tb, o, v, n, c⟩ := s
+  obtain ⟨tb', o', v', n', c'⟩ := s'
+  simp [OpenSt.flags]
 
-theorem schemaStep_flags (s : OpenSt) (st : SchemaStmt) :
-    (schemaStep s st).map OpenSt.flags = flagStep s.flags st := by
-  obtain ⟨tb, o, v⟩ := s
+/-- a statement behaves the same on two files that differ only in their record tables -/
+theorem schemaStep_congr (s s' : OpenSt) (h : s.flags = s'.flags) (st : SchemaStmt) :
+    (schemaStep s st).map OpenSt.flags = (schemaStep s' st).map OpenSt.flags := by
+  obtain ⟨ho, hv, hn, hc⟩ := (flags_eq_iff s s').mp h
+  obtain ⟨tb, o, v, n, c⟩ := s
+  obtain ⟨tb', o', v', n', c'⟩ := s'
+  simp only at ho hv hn hc
+  subst ho hv hn hc
   cases st with
   | createTable t =>
-    simp only [schemaStep, flagStep, OpenSt.flags, Option.map_some]
-    split <;> rfl
+    simp only [schemaStep, Option.map_some, Option.some.injEq]
+    split <;> split <;> simp [OpenSt.flags]
   | createOption => rfl
   | deleteVersion => cases o <;> rfl
-  | insertVersion => cases o <;> cases v <;> rfl
-  | upsertVersion => cases o <;> rfl
+  | insertVersion m => cases o <;> cases v <;> rfl
+  | upsertVersion m => cases o <;> rfl
+  | setVersion m => cases o <;> cases v <;> rfl
+  | alterAddCol => cases c <;> rfl
+  | fillCol => cases c <;> rfl
+  | begin => rfl
+  | commit => rfl
   | other => rfl
 
-theorem runList_flags (script : List SchemaStmt) :
-    ∀ s : OpenSt, ((runList script s).1.flags, (runList script s).2) = runFlags script s.flags := by
-  induction script with
-  | nil => intro s; rfl
-  | cons st rest ih =>
-    intro s
-    have h := schemaStep_flags s st
-    simp only [runList, runFlags]
-    cases hs : schemaStep s st with
-    | none => rw [hs] at h; simp at h; rw [← h]
-    | some s' => rw [hs] at h; simp at h; rw [← h]; exact ih s'
+def RunSt.Sim (r r' : RunSt) : Prop :=
+  r.committed.flags = r'.committed.flags ∧ r.working.flags = r'.working.flags ∧ r.inTx = r'.inTx
 
-theorem schemaStep_tables_mono (s s' : OpenSt) (st : SchemaStmt) (h : schemaStep s st = some s') (t : Nat)
-    (ht : t ∈ s.tables) : t ∈ s'.tables := by
-  cases st <;> simp [schemaStep] at h
-  · subst h; split <;> simp [ht]
-  · subst h; exact ht
-  · obtain ⟨_, h⟩ := h; subst h; exact ht
-  · obtain ⟨_, h⟩ := h; subst h; exact ht
-  · obtain ⟨_, h⟩ := h; subst h; exact ht
-  · subst h; exact ht
-
-theorem runList_tables_mono (script : List SchemaStmt) :
-    ∀ (s : OpenSt) (t : Nat), t ∈ s.tables → t ∈ (runList script s).1.tables := by
-  induction script with
-  | nil => intro s t h; exact h
+theorem runTx_sim (l : List SchemaStmt) :
+    ∀ r r' : RunSt, r.Sim r' → (runTx l r).1.Sim (runTx l r').1 ∧ (runTx l r).2 = (runTx l r').2 := by
+  induction l with
+  | nil => intro r r' h; exact ⟨h, rfl⟩
   | cons st rest ih =>
-    intro s t h
-    simp only [runList]
-    cases hs : schemaStep s st with
-    | none => exact h
-    | some s' => exact ih s' t (schemaStep_tables_mono s s' st hs t h)
+    intro r r' h
+    obtain ⟨hc, hw, ht⟩ := h
+    have step : ∀ (hb : st ≠ .begin) (hm : st ≠ .commit),
+        (runTx (st :: rest) r).1.Sim (runTx (st :: rest) r').1 ∧ (runTx (st :: rest) r).2 = (runTx (st :: rest) r').2 := by
+      intro hb hm
+      have e : ∀ q : RunSt, runTx (st :: rest) q =
+          match schemaStep q.working st with
+          | none => (q, true)
+          | some w => if q.inTx then runTx rest { q with working := w }
+                      else runTx rest { committed := w, working := w, inTx := false } := by
+        intro q; cases st <;> first | rfl | exact absurd rfl hb | exact absurd rfl hm
+      rw [e r, e r']
+      have hs := schemaStep_congr r.working r'.working hw st
+      cases h1 : schemaStep r.working st with
+      | none =>
+        rw [h1] at hs
+        cases h2 : schemaStep r'.working st with
+        | none => exact ⟨⟨hc, hw, ht⟩, rfl⟩
+        | some w' => rw [h2] at hs; simp at hs
+      | some w =>
+        rw [h1] at hs
+        cases h2 : schemaStep r'.working st with
+        | none => rw [h2] at hs; simp at hs
+        | some w' =>
+          rw [h2] at hs
+          have hww : w.flags = w'.flags := by simpa using hs
+          rw [← ht]
+          by_cases hin : r.inTx = true
+          · simp only [hin, ↓reduceIte]
+            exact ih _ _ ⟨hc, hww, by simp [hin, ← ht]⟩
+          · have hin' : r.inTx = false := by simpa using hin
+            simp only [hin']
+            exact ih _ _ ⟨hww, hww, rfl⟩
+    cases st with
+    | begin => exact ih _ _ ⟨hc, hc, rfl⟩
+    | commit => exact ih _ _ ⟨hw, hw, rfl⟩
+    | createTable t => exact step (by simp) (by simp)
+    | createOption => exact step (by simp) (by simp)
+    | deleteVersion => exact step (by simp) (by simp)
+    | insertVersion n => exact step (by simp) (by simp)
+    | upsertVersion n => exact step (by simp) (by simp)
+    | setVersion n => exact step (by simp) (by simp)
+    | alterAddCol => exact step (by simp) (by simp)
+    | fillCol => exact step (by simp) (by simp)
+    | other => exact step (by simp) (by simp)
 
-/-- a script that ran to its end without raising has created every table it names -/
-theorem runList_creates (script : List SchemaStmt) (t : Nat) (h : SchemaStmt.createTable t ∈ script) :
-    ∀ s : OpenSt, (runList script s).2 = false → t ∈ (runList script s).1.tables := by
-  induction script with
-  | nil => cases h
-  | cons st rest ih =>
-    intro s hok
-    simp only [runList] at hok ⊢
-    cases hs : schemaStep s st with
-    | none => rw [hs] at hok; simp at hok
-    | some s' =>
-      rw [hs] at hok
-      rcases List.mem_cons.mp h with h1 | h1
-      · subst h1
-        apply runList_tables_mono
-        simp only [schemaStep, Option.some.injEq] at hs
-        subst hs
-        by_cases hc : s.tables.contains t = true
-        · simp only [hc, ↓reduceIte]; simpa using hc
-        · simp only [hc]; simp
-      · exact ih h1 s' hok
+theorem flags_idem (s : OpenSt) : s.flags.flags = s.flags := rfl
+
+theorem fresh_sim (s s' : OpenSt) (h : s.flags = s'.flags) : (fresh s).Sim (fresh s') := ⟨h, h, rfl⟩
+
+theorem openStmts_congr (cfg : OpenCfg) (s s' : OpenSt) (h : s.flags = s'.flags) : openStmts cfg s = openStmts cfg s' := by
+  obtain ⟨ho, hv, hn, _⟩ := (flags_eq_iff s s').mp h
+  simp [openStmts, ho, hv, hn]
+
+theorem versionReadOk_congr (hd : List ExcKind) (s s' : OpenSt) (h : s.flags = s'.flags) :
+    versionReadOk hd s = versionReadOk hd s' := by
+  obtain ⟨ho, hv, _, _⟩ := (flags_eq_iff s s').mp h
+  simp [versionReadOk, ho, hv]
+
+theorem openKilled_congr (cfg : OpenCfg) (n : Nat) (s s' : OpenSt) (h : s.flags = s'.flags) :
+    (openKilled cfg n s).flags = (openKilled cfg n s').flags := by
+  unfold openKilled
+  rw [versionReadOk_congr _ s s' h, openStmts_congr cfg s s' h]
+  split
+  · exact (runTx_sim _ _ _ (fresh_sim s s' h)).1.1
+  · exact h
+
+theorem openOk_congr (cfg : OpenCfg) (s s' : OpenSt) (h : s.flags = s'.flags) : openOk cfg s = openOk cfg s' := by
+  unfold openOk
+  rw [versionReadOk_congr _ s s' h, openStmts_congr cfg s s' h, (runTx_sim _ _ _ (fresh_sim s s' h)).2]
+
+theorem openEnd_congr (cfg : OpenCfg) (s s' : OpenSt) (h : s.flags = s'.flags) :
+    (openEnd cfg s).flags = (openEnd cfg s').flags := by
+  unfold openEnd
+  rw [openStmts_congr cfg s s' h]
+  exact (runTx_sim _ _ _ (fresh_sim s s' h)).1.1
 
 theorem take_mem_prefixes {α : Type} (l : List α) : ∀ n : Nat, l.take n ∈ prefixes l := by
   induction l with
@@ -388,50 +432,55 @@ theorem take_mem_prefixes {α : Type} (l : List α) : ∀ n : Nat, l.take n ∈ 
     | zero => simp [prefixes]
     | succ n => simp only [List.take_succ_cons, prefixes, List.mem_cons, List.mem_map]; right; exact ⟨_, ih n, rfl⟩
 
-/-- a store can be opened whatever a kill left behind, also when the kill (or a raise) hit an earlier `open()`
-    behind any statement of the schema script; a completed open leaves the whole schema and the version row -/
-def OpenSafe (handlers : List ExcKind) (script : List SchemaStmt) (tables : List Nat) : Prop :=
-  ∀ (s : OpenSt) (n : Nat),
-    let s1 := openKilled handlers script n s
-    openOk handlers script s1 = true ∧
-      (∀ t ∈ tables, t ∈ (openEnd script s1).tables) ∧ (openEnd script s1).option = true ∧
-      (openEnd script s1).version = true
+theorem flags_mem_flagStates (s : OpenSt) (m : Nat) (h : s.ver ≤ m) : s.flags ∈ flagStates m := by
+  obtain ⟨tb, o, v, n, c⟩ := s
+  simp only [flagStates, OpenSt.flags, List.mem_flatMap, List.mem_map, List.mem_range]
+  exact ⟨o, by cases o <;> simp, v, by cases v <;> simp, c, by cases c <;> simp, n, by simpa using Nat.lt_succ_of_le h, rfl⟩
 
-theorem flags_cases (f : Bool × Bool) :
-    f ∈ [(false, false), (false, true), (true, false), (true, true)] := by
-  obtain ⟨a, b⟩ := f
-  cases a <;> cases b <;> simp
+/-- a store written by this or an older release (`ver ≤ maxVer`) can be opened whatever a kill left behind, also when
+    the kill (or a raise) hit an earlier `open()` behind any statement of the upgrade or schema script; a completed
+    open leaves the option table, the version row of the latest version and the upgraded record table -/
+def OpenSafe (cfg : OpenCfg) (maxVer : Nat) : Prop :=
+  ∀ (s : OpenSt) (n : Nat), s.ver ≤ maxVer → consistent cfg s = true →
+    let s1 := openKilled cfg n s
+    openOk cfg s1 = true ∧ (openEnd cfg s1).option = true ∧ (openEnd cfg s1).version = true ∧
+      (openEnd cfg s1).ver = cfg.latest ∧ (openEnd cfg s1).col = true
 
-theorem openSafe_of (handlers : List ExcKind) (script : List SchemaStmt) (tables : List Nat)
-    (h1 : flagsSafe handlers script = true)
-    (h2 : ∀ t ∈ tables, SchemaStmt.createTable t ∈ script) : OpenSafe handlers script tables := by
-  intro s n
-  simp only [flagsSafe, List.all_eq_true] at h1
-  have hf := h1 s.flags (flags_cases _) (script.take n) (take_mem_prefixes script n)
-  have hro : ∀ x : OpenSt, versionReadOk handlers x = flagReadOk handlers x.flags := fun x => rfl
-  -- the flags of the state the killed open left behind
-  have hs1 : (openKilled handlers script n s).flags =
-      (if flagReadOk handlers s.flags then (runFlags (script.take n) s.flags).1 else s.flags) := by
-    unfold openKilled
-    rw [hro]
-    split
-    · have := runList_flags (script.take n) s
-      exact (congrArg Prod.fst this)
-    · rfl
+theorem openSafe_of (cfg : OpenCfg) (maxVer : Nat) (h1 : flagsSafe cfg maxVer = true) : OpenSafe cfg maxVer := by
+  intro s n hv hcons
+  simp only [flagsSafe, List.all_eq_true, Bool.or_eq_true, Bool.not_eq_true'] at h1
+  have hcf : consistent cfg s.flags = true := hcons
+  have hf := (h1 s.flags (flags_mem_flagStates s maxVer hv)).resolve_left (by simp [hcf])
+    ((openStmts cfg s.flags).take n) (take_mem_prefixes _ n)
+  have hk : (if versionReadOk cfg.handlers s.flags then
+      (runTx ((openStmts cfg s.flags).take n) (fresh s.flags)).1.committed else s.flags)
+      = openKilled cfg n s.flags := rfl
   try dsimp only at hf
-  rw [← hs1] at hf
-  generalize openKilled handlers script n s = s1 at hf ⊢
-  have hrun := runList_flags script s1
-  simp only [Bool.and_eq_true, Bool.not_eq_true', beq_iff_eq] at hf
-  obtain ⟨⟨hr, hok⟩, hend⟩ := hf
-  have hok' : (runList script s1).2 = false := by
-    have := congrArg Prod.snd hrun; dsimp only at this; rw [this]; exact hok
-  have hend' : (runList script s1).1.flags = (true, true) := by
-    have := congrArg Prod.fst hrun; dsimp only at this; rw [this]; exact hend
-  refine ⟨by simp [openOk, hro, hr, hok'], ?_, ?_, ?_⟩
-  · intro t ht; exact runList_creates script t (h2 t ht) s1 hok'
-  · exact congrArg Prod.fst hend'
-  · exact congrArg Prod.snd hend'
+  rw [hk] at hf
+  have hsim : (openKilled cfg n s).flags = (openKilled cfg n s.flags).flags :=
+    openKilled_congr cfg n s s.flags (flags_idem s).symm
+  rw [← openOk_congr cfg _ _ hsim] at hf
+  have hend := (flags_eq_iff _ _).mp (openEnd_congr cfg _ _ hsim)
+  obtain ⟨e1, e2, e3, e4⟩ := hend
+  simp only [Bool.and_eq_true, beq_iff_eq] at hf
+  obtain ⟨hok, ⟨⟨ho, hv2⟩, hver⟩, hc⟩ := hf
+  exact ⟨hok, by rw [e1]; exact ho, by rw [e2]; exact hv2, by rw [e3]; exact hver, by rw [e4]; exact hc⟩
+
+/-- the tables a schema script names exist after a run that did not raise -/
+theorem schemaStep_tables_mono (s s' : OpenSt) (st : SchemaStmt) (h : schemaStep s st = some s') (t : Nat)
+    (ht : t ∈ s.tables) : t ∈ s'.tables := by
+  cases st <;> simp [schemaStep] at h
+  case createTable u => subst h; split <;> simp [ht]
+  case createOption => subst h; exact ht
+  case deleteVersion => obtain ⟨_, h⟩ := h; subst h; exact ht
+  case insertVersion m => obtain ⟨_, h⟩ := h; subst h; exact ht
+  case upsertVersion m => obtain ⟨_, h⟩ := h; subst h; exact ht
+  case setVersion m => obtain ⟨_, h⟩ := h; subst h; split <;> exact ht
+  case alterAddCol => obtain ⟨_, h⟩ := h; subst h; exact ht
+  case fillCol => obtain ⟨_, h⟩ := h; subst h; exact ht
+  case begin => subst h; exact ht
+  case commit => subst h; exact ht
+  case other => subst h; exact ht
 
 /-! ### one row per primary key -/
 
@@ -588,5 +637,39 @@ theorem causalCheckFrom_sound (dep : Nat → Nat → Option (Nat × Nat)) (rest 
       rw [e] at hrest
       have := ih (pre ++ [c0]) hrest i c (by simpa using hi) row hrow d hd
       simpa [List.append_assoc] using this
+
+/-! ### from the visible token rows to the rebuilt tree -/
+
+/-- the visible token rows of table `tt` as the reload loop sees them: id = primary-key id, predecessor from `dep` -/
+def toksOf (dep : Nat → Nat → Option (Nat × Nat)) (tt : Nat) (rows : List Row) : List Tok :=
+  (rows.filter (fun r => r.table == tt)).map (fun r => ⟨r.key, (dep tt r.key).map (·.2)⟩)
+
+theorem mem_toksOf (dep : Nat → Nat → Option (Nat × Nat)) (tt : Nat) (rows : List Row) (r : Row) (hr : r ∈ rows)
+    (ht : r.table = tt) : (⟨r.key, (dep tt r.key).map (·.2)⟩ : Tok) ∈ toksOf dep tt rows := by
+  simp only [toksOf, List.mem_map, List.mem_filter, beq_iff_eq]
+  exact ⟨r, ⟨hr, ht⟩, rfl⟩
+
+/-- the pointer chain of token `key` stays inside the rebuilt tree `elems` and ends at a genesis token -/
+inductive ChainIn (dep : Nat → Nat → Option (Nat × Nat)) (tt : Nat) (elems : List Nat) : Nat → Prop
+  | genesis {key : Nat} : key ∈ elems → dep tt key = none → ChainIn dep tt elems key
+  | step {key : Nat} {d : Nat × Nat} : key ∈ elems → dep tt key = some d → ChainIn dep tt elems d.2 →
+      ChainIn dep tt elems key
+
+theorem chainIn_of_reaches (dep : Nat → Nat → Option (Nat × Nat)) (tt : Nat) (rows : List Row) (elems : List Nat)
+    (hin : ∀ key d, dep tt key = some d → d.1 = tt)
+    (hall : ∀ r ∈ rows, r.table = tt → r.key ∈ elems) :
+    ∀ t key, Reaches dep rows t key → t = tt → ChainIn dep tt elems key := by
+  intro t key h
+  induction h with
+  | genesis hk hd =>
+    intro ht
+    subst ht
+    obtain ⟨r, hr, hrt, hrk⟩ := hasKey_exists hk
+    exact .genesis (hrk ▸ hall r hr hrt) hd
+  | step hk hd _ ih =>
+    intro ht
+    subst ht
+    obtain ⟨r, hr, hrt, hrk⟩ := hasKey_exists hk
+    exact .step (hrk ▸ hall r hr hrt) hd (ih (hin _ _ hd))
 
 end Ipv8.C19
